@@ -32,7 +32,7 @@ func C12(r *core.Run) {
 	}
 	r.Rule("R12.4", "the two slice expressions handed to the transport in chunkedReader.Read are discharged (reviewed loop invariant with re-checked premise)")
 	boundsRule(r, ctx, "R12.4", scope)
-	r.Floor("R12.4", 2, "decoder slice sites")
+	r.Floor("R12.4", 1, "decoder slice sites")
 }
 
 func rule121(r *core.Run, ctx *oblig.Ctx) {
@@ -69,7 +69,7 @@ func rule121(r *core.Run, ctx *oblig.Ctx) {
 		switch v := st.Val.(type) {
 		case *ssa.BinOp:
 			if v.Op == token.SUB && isLoadOf(r, v.X, "gofakes3.chunkedReader.chunkRemain") {
-				if c := isInnerRead(v.Y); c != nil && c.Block() == st.Block() {
+				if c := isInnerRead(v.Y); c != nil && (c.Block() == st.Block() || core.Dominates(c, st)) {
 					ok = true
 				} else {
 					why = "chunkRemain is reduced by something other than the byte count the transport delivered in this step (e.g. the requested size): short transport reads desynchronise the chunk framing"
@@ -94,18 +94,54 @@ func rule121(r *core.Run, ctx *oblig.Ctx) {
 		}
 		r.Check(ok, "R12.1", k, pos(r, st), "parsed size / previous − delivered", why)
 	}
-	if n < 3 {
-		r.Unresolved("R12.1: %d stores to chunkRemain found (expected 3)", n)
+	if n < 2 {
+		r.Unresolved("R12.1: %d stores to chunkRemain found (expected at least 2: the parsed header and a decrement)", n)
 	}
-	// loop phis
-	var loopPhis []*ssa.Phi
+	// loop counters, identified structurally: sizeToRead starts as len(p); n starts at 0 and is the returned count
+	var nPhi, szPhi *ssa.Phi
 	core.Instrs(fn, func(in ssa.Instruction) {
-		if ph, ok := in.(*ssa.Phi); ok && r.P.TypeShort(ph.Type()) == "int" {
-			loopPhis = append(loopPhis, ph)
+		ph, ok := in.(*ssa.Phi)
+		if !ok || r.P.TypeShort(ph.Type()) != "int" {
+			return
+		}
+		for _, e := range ph.Edges {
+			if isLenCall(e) && e.(*ssa.Call).Call.Args[0] == ssa.Value(fn.Params[1]) {
+				szPhi = ph
+			}
 		}
 	})
+	for _, ret := range core.Returns(fn) {
+		v := ret.Results[0]
+		for i := 0; i < 3; i++ {
+			if ph, ok := v.(*ssa.Phi); ok {
+				isInit0 := false
+				for _, e := range ph.Edges {
+					if k, isK := core.ConstInt(e); isK && k == 0 {
+						isInit0 = true
+					}
+				}
+				if isInit0 {
+					nPhi = ph
+				}
+				break
+			}
+			if b, ok := v.(*ssa.BinOp); ok {
+				v = b.X
+				continue
+			}
+			break
+		}
+	}
+	if nPhi == nil || szPhi == nil {
+		r.Unresolved("R12.1: the loop counters of chunkedReader.Read (delivered count starting at 0, remaining size starting at len(p)) were not recognised")
+		return
+	}
 	nEdges := 0
-	for _, ph := range loopPhis {
+	for _, ph := range []*ssa.Phi{nPhi, szPhi} {
+		what := "delivered count"
+		if ph == szPhi {
+			what = "remaining request size"
+		}
 		for i, e := range ph.Edges {
 			if e == ssa.Value(ph) {
 				continue
@@ -114,28 +150,84 @@ func rule121(r *core.Run, ctx *oblig.Ctx) {
 				continue
 			}
 			if isLenCall(e) {
-				continue // sizeToRead := len(p)
+				continue
 			}
 			b, ok := e.(*ssa.BinOp)
 			pred := ph.Block().Preds[i]
 			nEdges++
-			k := key(name, "loop update of "+ph.Comment, sprintf("edge#%d", i))
+			k := key(name, "loop update of the "+what, sprintf("edge#%d", i))
 			okE := false
-			if ok && b.X == ssa.Value(ph) && (b.Op == token.ADD || b.Op == token.SUB) {
-				if c := isInnerRead(b.Y); c != nil && c.Block() == pred {
-					// n grows, sizeToRead shrinks
-					if (ph.Comment == "n" && b.Op == token.ADD) || (ph.Comment == "sizeToRead" && b.Op == token.SUB) || (ph.Comment != "n" && ph.Comment != "sizeToRead") {
+			if ok && b.X == ssa.Value(ph) {
+				if c := isInnerRead(b.Y); c != nil && (c.Block() == pred || c.Block().Dominates(pred)) {
+					if (ph == nPhi && b.Op == token.ADD) || (ph == szPhi && b.Op == token.SUB) {
 						okE = true
 					}
 				}
 			}
-			r.Check(okE, "R12.1", k, r.P.InstrPos(pred.Instrs[len(pred.Instrs)-1]), "moves by the delivered byte count of this step", "a loop counter ("+ph.Comment+") is updated by something other than the byte count delivered by the inner Read of this step")
+			r.Check(okE, "R12.1", k, r.P.InstrPos(pred.Instrs[len(pred.Instrs)-1]), "moves by the delivered byte count of this step", "the "+what+" is updated by something other than the byte count delivered by the inner Read of this step")
 		}
 	}
-	if nEdges < 4 {
-		r.Unresolved("R12.1: %d loop counter updates found (expected 4)", nEdges)
+	if nEdges < 2 {
+		r.Unresolved("R12.1: %d loop counter updates found (expected at least 2)", nEdges)
 	}
-	// slices handed to the transport
+	// slices handed to the transport: p[n : n+m], 0 < m <= sizeToRead and m <= chunkRemain
+	isRemain := func(v ssa.Value) bool { return isLoadOf(r, v, "gofakes3.chunkedReader.chunkRemain") }
+	hasFact := func(facts []oblig.Fact, pred func(f oblig.Fact) bool) bool {
+		for _, f := range facts {
+			if pred(f) {
+				return true
+			}
+		}
+		return false
+	}
+	// remain >= sz (or >)
+	remainGeSz := func(f oblig.Fact) bool {
+		return ((f.Op == token.GTR || f.Op == token.GEQ) && isRemain(f.X) && f.Y == ssa.Value(szPhi)) ||
+			((f.Op == token.LSS || f.Op == token.LEQ) && f.X == ssa.Value(szPhi) && isRemain(f.Y))
+	}
+	// remain <= sz (or <)
+	remainLeSz := func(f oblig.Fact) bool {
+		return ((f.Op == token.LSS || f.Op == token.LEQ) && isRemain(f.X) && f.Y == ssa.Value(szPhi)) ||
+			((f.Op == token.GTR || f.Op == token.GEQ) && f.X == ssa.Value(szPhi) && isRemain(f.Y))
+	}
+	remainPos := func(f oblig.Fact) bool {
+		if f.Op == token.GTR && isRemain(f.X) {
+			if kk, isK := core.ConstInt(f.Y); isK && kk >= 0 {
+				return true
+			}
+		}
+		return false
+	}
+	var okM func(v ssa.Value, at ssa.Instruction, extra []oblig.Fact, d int) bool
+	okM = func(v ssa.Value, at ssa.Instruction, extra []oblig.Fact, d int) bool {
+		if d > 3 {
+			return false
+		}
+		facts := append(append([]oblig.Fact{}, ctx.FactsAt(at)...), extra...)
+		switch {
+		case v == ssa.Value(szPhi):
+			return hasFact(facts, remainGeSz)
+		case isRemain(v):
+			return hasFact(facts, remainLeSz) && hasFact(facts, remainPos)
+		}
+		if ph, ok := v.(*ssa.Phi); ok {
+			for i, e := range ph.Edges {
+				pred := ph.Block().Preds[i]
+				term := pred.Instrs[len(pred.Instrs)-1]
+				ex := append([]oblig.Fact{}, extra...)
+				if ef, ok := ctx.EdgeFact(pred, ph.Block()); ok {
+					ex = append(ex, ef)
+				}
+				// facts that hold at the merge point hold on every edge too
+				ex = append(ex, ctx.FactsAt(at)...)
+				if !okM(e, term, ex, d+1) {
+					return false
+				}
+			}
+			return len(ph.Edges) > 0
+		}
+		return false
+	}
 	nSl := 0
 	core.Instrs(fn, func(in ssa.Instruction) {
 		c, ok := in.(*ssa.Call)
@@ -149,42 +241,15 @@ func rule121(r *core.Run, ctx *oblig.Ctx) {
 		nSl++
 		k := key(name, "slice handed to the transport", sprintf("#%d", nSl))
 		p := fn.Params[1]
-		okS := sl.X == ssa.Value(p)
-		// low = n phi ; high = n + m
-		lowPhi, _ := sl.Low.(*ssa.Phi)
 		hi, _ := sl.High.(*ssa.BinOp)
-		okS = okS && lowPhi != nil && lowPhi.Comment == "n" && hi != nil && hi.Op == token.ADD && hi.X == ssa.Value(lowPhi)
+		okS := sl.X == ssa.Value(p) && sl.Low == ssa.Value(nPhi) && hi != nil && hi.Op == token.ADD && hi.X == ssa.Value(nPhi)
 		if okS {
-			// which arm
-			gt := false // chunkRemain > sizeToRead established?
-			for _, f := range ctx.FactsAt(c) {
-				if f.Op == token.GTR && isLoadOf(r, f.X, "gofakes3.chunkedReader.chunkRemain") {
-					if ph, isPhi := f.Y.(*ssa.Phi); isPhi && ph.Comment == "sizeToRead" {
-						gt = true
-					}
-				}
-			}
-			if gt {
-				ph, isPhi := hi.Y.(*ssa.Phi)
-				okS = isPhi && ph.Comment == "sizeToRead"
-			} else {
-				okS = isLoadOf(r, hi.Y, "gofakes3.chunkedReader.chunkRemain")
-				// and chunkRemain > 0 established
-				pos0 := false
-				for _, f := range ctx.FactsAt(c) {
-					if f.Op == token.GTR && isLoadOf(r, f.X, "gofakes3.chunkedReader.chunkRemain") {
-						if kk, isK := core.ConstInt(f.Y); isK && kk == 0 {
-							pos0 = true
-						}
-					}
-				}
-				okS = okS && pos0
-			}
+			okS = okM(hi.Y, c, nil, 0)
 		}
-		r.Check(okS, "R12.1", k, pos(r, c), "p[n : n+min(sizeToRead, chunkRemain)]", "the buffer handed to the transport is not p[n : n+m] with m the smaller of the requested size and the bytes left in the chunk (reads across a chunk boundary or over already delivered bytes)")
+		r.Check(okS, "R12.1", k, pos(r, c), "p[n : n+m] with 0 < m <= min(requested, left in chunk)", "the buffer handed to the transport is not p[n : n+m] with m bounded by both the requested size and the bytes left in the chunk (reads across a chunk boundary or over already delivered bytes)")
 	})
-	if nSl != 2 {
-		r.Unresolved("R12.1: %d inner Read calls with a slice argument (expected 2)", nSl)
+	if nSl < 1 {
+		r.Unresolved("R12.1: no inner Read with a slice of p found in chunkedReader.Read")
 	}
 }
 
@@ -235,8 +300,8 @@ func rule122(r *core.Run) {
 		}
 		r.Check(ok2, "R12.2", k, pos(r, c), "non-nil error returned at once", "a non-nil error of "+r.P.CalleeName(c)+" does not lead straight to returning it (the loop continues on a broken stream)")
 	})
-	if n < 5 {
-		r.Unresolved("R12.2: %d error-returning calls in chunkedReader.Read (expected 5)", n)
+	if n < 4 {
+		r.Unresolved("R12.2: %d error-returning calls in chunkedReader.Read (expected at least 4: transport read, chunk header, two framing skips)", n)
 	}
 	// the skips have the protocol's fixed widths
 	widths := map[int64]bool{}
@@ -273,7 +338,8 @@ func rule123(r *core.Run, ctx *oblig.Ctx) {
 	for _, g := range core.GuardsOf(nc) {
 		cd := core.CondOf(g.If.Cond)
 		gs := r.P.SliceOf(g.If.Cond, core.SliceOpts{Depth: -1})
-		if cd.Op == token.EQL && g.Branch != cd.Neg && gs.Has("const:STREAMING-AWS4-HMAC-SHA256-PAYLOAD") && gs.Has("const:X-Amz-Content-Sha256") {
+		if eq, ok := g.Equality(); ok && eq && gs.Has("const:STREAMING-AWS4-HMAC-SHA256-PAYLOAD") && gs.Has("const:X-Amz-Content-Sha256") {
+			_ = cd
 			okConst, okKey = true, true
 		}
 	}
